@@ -1,4 +1,4 @@
-import AsherahVerif.Proofs.EnvTimeBase
+import AsherahVerif.Proofs.EnvTimeProps
 /-
 C05 — Revocation in the metastore takes effect within the revoke-check interval.
 
@@ -10,6 +10,133 @@ now would get.
 -/
 namespace AsherahVerif.Props.C05
 open AsherahVerif.Env
+
+/-! ### the revocation is seen at the next reload (`RevSeen`) -/
+
+/-- **invariant `RevSeen`.** The row `m` exists and is revoked when the clock shows `τ` (after
+`pre`). In every world reached afterwards, in every key cache, an entry filed under `m` either
+carries the revoked flag on its key object or was loaded no later than `τ`. (Inductive: entries
+are created and re-stamped only from fresh reads of the row, which is flagged from `τ` on, and
+`load` merges the flag of the re-read key only into the entry of that same key.) -/
+theorem rev_seen {t : Int} {pre post : List Op} {m : KeyMeta}
+    (hok : histOk (World.init t) (pre ++ [.revoke m] ++ post) = true)
+    (hex : (findRow (runOps (World.init t) pre).2.store m).isSome = true) :
+    ∀ (c : Nat) (e : CEntry), (m, e) ∈ entsOf (runOps (World.init t) (pre ++ [.revoke m] ++ post)).2 c →
+      (keyAt (runOps (World.init t) (pre ++ [.revoke m] ++ post)).2 e.obj).revoked = true ∨
+        e.loadedAt ≤ (runOps (World.init t) pre).2.now := by
+  intro c e hm
+  obtain ⟨ko, hk, -, hs⟩ := ((inv_after_revoke hok hex).good c m e hm).coh
+  rw [keyAt_of_get hk]
+  exact hs _ _ rfl rfl
+
+/-- **C05, revoked intermediate key: one interval.**  The row `m` is revoked at `τ`. A record returned
+by a fault-free encrypt of any session later than
+`τ + revokeInterval` does not name `m` — provided a key with a later creation stamp can be created
+(`m.created < keyTimestamp now precision`) — and the intermediate key it does name is stored.
+For every cache configuration, every history before and after the revocation. -/
+theorem ik_revocation_bounded {t : Int} {pre post : List Op} {m : KeyMeta} {s pay : Nat} {d : Drr} {w' : World}
+    (hok : histOk (World.init t) (pre ++ [.revoke m] ++ post) = true)
+    (hex : (findRow (runOps (World.init t) pre).2.store m).isSome = true)
+    (_hopen : sessionOpen (runOps (World.init t) (pre ++ [.revoke m] ++ post)).2 s)
+    (ha : allowed (runOps (World.init t) (pre ++ [.revoke m] ++ post)).2 (.encrypt s pay []) = true)
+    (h : applyOp (runOps (World.init t) (pre ++ [.revoke m] ++ post)).2 (.encrypt s pay []) = (.record d, w'))
+    (hlate : (runOps (World.init t) pre).2.now
+        + (sessionCtx (runOps (World.init t) (pre ++ [.revoke m] ++ post)).2 s).pol.revokeInterval
+      < (runOps (World.init t) (pre ++ [.revoke m] ++ post)).2.now)
+    (hstamp : m.created < keyTimestamp (runOps (World.init t) (pre ++ [.revoke m] ++ post)).2.now
+      (sessionCtx (runOps (World.init t) (pre ++ [.revoke m] ++ post)).2 s).pol.precision) :
+    ∃ mi, drrIk d = some mi ∧ mi ≠ m ∧ (findRow w'.store mi).isSome = true := by
+  have hi := inv_after_revoke hok hex
+  generalize (runOps (World.init t) (pre ++ [.revoke m] ++ post)).2 = w at *
+  generalize (runOps (World.init t) pre).2.now = τ at *
+  obtain ⟨hinv, -, -, c, hd, hout⟩ := encrypt_outcome hi ha h
+  refine ⟨_, hd, ?_, ?_⟩
+  · intro heq
+    rcases hout with ⟨k, hh, hc, hv, -⟩ | ⟨r, -, -, -, -, -, hrev⟩
+    · obtain ⟨hk1, -, ko, -, hcr, hrv, hout⟩ := hit_out (St.beginOp hi) hh (RT.refl _)
+      obtain ⟨ko', hko', hcm, -, hflag⟩ := hout
+      have hmeta : readMeta (beginOp [] w).2 (sessionCtx w s).ikCache ⟨(sessionCtx w s).ikId, 0⟩ = m := by
+        rw [← heq]
+        have e1 : (readMeta (beginOp [] w).2 (sessionCtx w s).ikCache ⟨(sessionCtx w s).ikId, 0⟩).created = c := by
+          rw [← hcm, ← keyAt_of_get hko']; exact hc
+        generalize readMeta (beginOp [] w).2 (sessionCtx w s).ikCache ⟨(sessionCtx w s).ikId, 0⟩ = rm at hk1 e1
+        obtain ⟨kd, cr⟩ := rm
+        simp only at hk1 e1
+        rw [hk1, e1]
+      rcases hflag _ _ rfl hmeta.symm with hf | hf
+      · unfold isKeyInvalid at hv
+        rw [keyAt_of_get hko', hf] at hv
+        simp at hv
+      · have : (beginOp [] w).2.now = w.now := rfl
+        omega
+    · have := hrev _ _ rfl heq.symm
+      rw [← heq] at hstamp
+      simp only at hstamp
+      omega
+  · rcases hout with ⟨k, hh, hc, -, -, hst⟩ | ⟨r, hr, hk, hcr, -⟩
+    · obtain ⟨hk1, -, ko, -, -, -, ko', hko', hcm, ⟨r, hr, hrk, hrc⟩, -⟩ := hit_out (St.beginOp hi) hh (RT.refl _)
+      rw [hst]
+      refine findRow_isSome_of_mem hr (hrk.trans hk1) ?_
+      rw [hrc, ← hcm, ← keyAt_of_get hko']; exact hc
+    · exact findRow_isSome_of_mem hr hk hcr
+
+/-- **C05, revoked parent system key: what holds (`…_partial`).**  The SK row `m` is revoked at `τ`.
+If a fault-free encrypt returns a record naming an intermediate key whose stored row has parent `m`
+— and later stamps can be created for the system key and for the session's intermediate key — then
+either `now ≤ τ + revokeInterval` (the system-key cache may not have re-read the row yet), or the
+intermediate key was served from the session's cache by an entry loaded at most one interval ago
+(`now ≤ loadedAt + revokeInterval`, no metastore or KMS call).  Weaker than the full two-interval
+statement in that the second interval is counted from the load of the session's entry, whichever
+path loaded it: `now ≤ max (τ + interval) loadedAt + interval`.  For an entry loaded by an encrypt
+(`loadLatestOrCreateIntermediateKey` validates the parent's flag) this gives the property's
+`τ + 2·interval`; an entry installed later by a decrypt (F-11) is trusted for one interval from then. -/
+theorem sk_revocation_bounded_partial {t : Int} {pre post : List Op} {m : KeyMeta} {s pay : Nat} {d : Drr} {w' : World}
+    (hok : histOk (World.init t) (pre ++ [.revoke m] ++ post) = true)
+    (hex : (findRow (runOps (World.init t) pre).2.store m).isSome = true)
+    (_hopen : sessionOpen (runOps (World.init t) (pre ++ [.revoke m] ++ post)).2 s)
+    (ha : allowed (runOps (World.init t) (pre ++ [.revoke m] ++ post)).2 (.encrypt s pay []) = true)
+    (h : applyOp (runOps (World.init t) (pre ++ [.revoke m] ++ post)).2 (.encrypt s pay []) = (.record d, w'))
+    (hkid : m.kid = .sk)
+    (hsk : CanStamp (runOps (World.init t) (pre ++ [.revoke m] ++ post)).2 .sk
+      (sessionCtx (runOps (World.init t) (pre ++ [.revoke m] ++ post)).2 s).pol.precision)
+    (hik : CanStamp (runOps (World.init t) (pre ++ [.revoke m] ++ post)).2
+      (.ik (sessionCtx (runOps (World.init t) (pre ++ [.revoke m] ++ post)).2 s).part)
+      (sessionCtx (runOps (World.init t) (pre ++ [.revoke m] ++ post)).2 s).pol.precision)
+    {mi : KeyMeta} {r : Row} (hm : drrIk d = some mi) (hrow : findRow w'.store mi = some r)
+    (hpar : r.parent = some m) :
+    (runOps (World.init t) (pre ++ [.revoke m] ++ post)).2.now ≤ (runOps (World.init t) pre).2.now
+        + (sessionCtx (runOps (World.init t) (pre ++ [.revoke m] ++ post)).2 s).pol.revokeInterval ∨
+    ∃ e, readEntry (runOps (World.init t) (pre ++ [.revoke m] ++ post)).2
+        (sessionCtx (runOps (World.init t) (pre ++ [.revoke m] ++ post)).2 s).ikCache
+        ⟨.ik (sessionCtx (runOps (World.init t) (pre ++ [.revoke m] ++ post)).2 s).part, 0⟩ = some e ∧
+      (runOps (World.init t) (pre ++ [.revoke m] ++ post)).2.now ≤ e.loadedAt
+        + (sessionCtx (runOps (World.init t) (pre ++ [.revoke m] ++ post)).2 s).pol.revokeInterval ∧
+      Silent w' := by
+  have hi := inv_after_revoke hok hex
+  generalize (runOps (World.init t) (pre ++ [.revoke m] ++ post)).2 = w at *
+  generalize (runOps (World.init t) pre).2.now = τ at *
+  obtain ⟨hinv, -, -, c, hd, hout⟩ := encrypt_outcome hi ha h
+  rw [hm] at hd; cases hd
+  rcases hout with ⟨k, hh, hc, hv, hil, -⟩ | ⟨r', hr', hk', hc', -, hcase, -⟩
+  · right
+    obtain ⟨e, he, -, hle⟩ := hit_fresh hh hv
+    exact ⟨e, he, hle, hil.silent (fun c hc => by cases hc)⟩
+  · obtain ⟨hmem, hk, hcr⟩ := findRow_some hrow
+    have : r = r' := hinv.sto.uniq r r' hmem hr' (hk.trans hk'.symm) (hcr.trans hc'.symm)
+    subst this
+    rcases hcase with ⟨hin, hle⟩ | ⟨p', hp', -, hrev⟩
+    · exfalso
+      have := hik r hin hk
+      rw [hcr] at this
+      omega
+    · rw [hpar] at hp'; cases hp'
+      rcases hrev _ _ rfl rfl with h1 | h1
+      · left; exact h1
+      · exfalso
+        obtain ⟨⟨r0, hr0, hk0, hc0⟩, -⟩ := hi.sto.rev _ _ rfl
+        have := hsk r0 hr0 (hk0.trans hkid)
+        rw [hc0] at this
+        omega
 
 /-! ### witness history (F-11) -/
 
@@ -74,5 +201,42 @@ theorem sk_revocation_bounded_counterexample : ¬ sk_revocation_bounded_full := 
     (by decide) rfl (by decide) (Prod.ext (by decide) rfl) (by decide)
     (by unfold CanStamp; decide) (by unfold CanStamp; decide) (by decide) (by decide)
   exact this (by decide)
+
+/-! ### records written under a revoked key
+
+`old_records_still_decrypt` — "records written under the revoked key remain decryptable" — is the
+round-trip property of C01 (`AsherahVerif.Props.C01.roundtrip`): decrypt loads a key by the exact
+stamp the record names and never consults the revoked flag (`GetOrLoad` has no validity check;
+`isReloadRequired` even stops reloading a key once it is flagged). It is not re-proved here. -/
+
+/-! ### non-vacuity -/
+
+def ikm : KeyMeta := ⟨.ik 0, 1700000000⟩
+def postIk : List Op := [.advance 61000000000]
+def wIk : World := (runOps (World.init T0) (pre11 ++ [.revoke ikm] ++ postIk)).2
+def dIk : Drr :=
+  { key := some { created := 1700000061, enc := .enc 3 5 (.key 4), parent := some ⟨.ik 0, 1700000061⟩ },
+    data := .enc 4 4 (.payload 2) }
+
+/-- `rev_seen`, `ik_revocation_bounded`: the IK of partition 0 is revoked; 61 s later (interval 60 s)
+the long-lived session encrypts — all hypotheses hold, and the record names a new key. -/
+example : histOk (World.init T0) (pre11 ++ [.revoke ikm] ++ postIk) = true ∧
+    (findRow (runOps (World.init T0) pre11).2.store ikm).isSome = true ∧
+    sessionOpen wIk 0 ∧ allowed wIk (.encrypt 0 2 []) = true ∧
+    (applyOp wIk (.encrypt 0 2 [])).1 = .record dIk ∧
+    (runOps (World.init T0) pre11).2.now + (sessionCtx wIk 0).pol.revokeInterval < wIk.now ∧
+    ikm.created < keyTimestamp wIk.now (sessionCtx wIk 0).pol.precision :=
+  ⟨by decide, by decide, ⟨_, rfl, rfl, _, rfl, rfl⟩, by decide, by decide, by decide, by decide⟩
+
+/-- `sk_revocation_bounded_partial`: the F-11 world satisfies every hypothesis (the record's IK has
+the revoked SK as parent); the theorem places it in the cache-hit disjunct. -/
+example : histOk (World.init T0) (pre11 ++ [.revoke skm] ++ post11) = true ∧
+    sessionOpen w11 2 ∧ allowed w11 (.encrypt 2 3 []) = true ∧
+    (applyOp w11 (.encrypt 2 3 [])).1 = .record e11 ∧ skm.kid = .sk ∧
+    CanStamp w11 .sk (sessionCtx w11 2).pol.precision ∧
+    CanStamp w11 (.ik (sessionCtx w11 2).part) (sessionCtx w11 2).pol.precision ∧
+    findRow (applyOp w11 (.encrypt 2 3 [])).2.store ⟨.ik 0, 1700000000⟩ = some r11 ∧ r11.parent = some skm :=
+  ⟨by decide, ⟨_, rfl, rfl, _, rfl, rfl⟩, by decide, by decide, rfl, by unfold CanStamp; decide,
+   by unfold CanStamp; decide, by decide, rfl⟩
 
 end AsherahVerif.Props.C05
